@@ -62,7 +62,7 @@ def run_stream(stream, cuts, ncalls, level, inbuf=False):
         ev.append({'t': 'recv', 'b': list(segs[0])})
     for _ in range(ncalls):
         nlog = len(sock.log)
-        signal.setitimer(signal.ITIMER_REAL, 10.0)
+        signal.setitimer(signal.ITIMER_PROF, 10.0)
         try:
             if True:
                 code, body = io.recv_reply()
@@ -77,7 +77,7 @@ def run_stream(stream, cuts, ncalls, level, inbuf=False):
         except Exception as e:  # noqa
             res = {'t': 'raised', 'cls': type(e).__name__}
         finally:
-            signal.setitimer(signal.ITIMER_REAL, 0)
+            signal.setitimer(signal.ITIMER_PROF, 0)
         for s in sock.log[nlog:]:
             ev.append({'t': 'recv', 'b': list(s)})
         ev.append(res)
@@ -96,7 +96,7 @@ def run_replies(stream, cuts, ncalls, inbuf=False):
         ev.append({'t': 'recv', 'b': list(segs[0])})
     for _ in range(ncalls):
         nlog = len(sock.log)
-        signal.setitimer(signal.ITIMER_REAL, 10.0)
+        signal.setitimer(signal.ITIMER_PROF, 10.0)
         try:
             # Reply.recv is two lines: io.recv_reply() then the code/message setters; run the real
             # method and tap the IO-level pair through a recording IO wrapper
@@ -127,7 +127,7 @@ def run_replies(stream, cuts, ncalls, inbuf=False):
         except Exception as e:  # noqa
             res = {'t': 'raised', 'cls': type(e).__name__}
         finally:
-            signal.setitimer(signal.ITIMER_REAL, 0)
+            signal.setitimer(signal.ITIMER_PROF, 0)
         for s in sock.log[nlog:]:
             ev.append({'t': 'recv', 'b': list(s)})
         ev.append(res)
@@ -195,7 +195,7 @@ def segm(n, rnd, exh_upto, nrand):
 def main():
     out, shard, nshards, tier, seed = sys.argv[1], int(sys.argv[2]), int(sys.argv[3]), sys.argv[4], int(sys.argv[5])
     rnd = random.Random(seed * 7919 + shard)
-    signal.signal(signal.SIGALRM, _alarm)
+    signal.signal(signal.SIGPROF, _alarm)
     quick = tier == 'quick'
     f = open(out, 'w')
     n = [0]
